@@ -15,7 +15,7 @@ RTOL, ATOL = 1e-9, 1e-12
 
 def _anysym(*xs):
     for x in xs:
-        if is_sym(x):
+        if is_sym(x) or isinstance(x, T.XR):
             return True
         if isinstance(x, (tuple, list)) and _anysym(*x):
             return True
@@ -46,6 +46,10 @@ def Not(x):
     return not bool(x)
 
 
+def iff(a, b):
+    return And(implies(a, b), implies(b, a))
+
+
 def implies(a, b):
     if _anysym(a, b):
         return T.implies(a, b)
@@ -60,6 +64,10 @@ def If(c, a, b):
 
 def eq(a, b, rtol=RTOL, atol=ATOL):
     """Equality of reals (exact in the proof, within tolerance in the executable twin)."""
+    if isinstance(a, T.XR) or isinstance(b, T.XR):
+        # same convention as the executable twin below: two missing values are equal
+        na, nb = T.xnan(a), T.xnan(b)
+        return T.lor(T.land(na, nb), T.land(T.lnot(na), T.lnot(nb), T.cmp("==", T.xval(a), T.xval(b))))
     if _anysym(a, b):
         return T.cmp("==", a, b)
     a, b = _f(a), _f(b)
@@ -94,9 +102,27 @@ def gt(a, b):
 
 
 def absv(a):
-    if is_sym(a):
+    if is_sym(a) or isinstance(a, T.XR):
         return T.absv(a)
     return abs(a)
+
+
+def isnan(a):
+    """is the value missing (NaN)?  Plain symbolic reals are never NaN."""
+    if isinstance(a, T.XR):
+        return a.nan
+    if is_sym(a) or isinstance(a, (int, Fraction)):
+        return False
+    return math.isnan(a)
+
+
+def notnan(a):
+    return Not(isnan(a))
+
+
+def valof(a):
+    """the real value of a possibly-NaN quantity (meaningful only under notnan(a))"""
+    return a.v if isinstance(a, T.XR) else a
 
 
 def forall(lo, hi, fn, name="q"):
